@@ -32,16 +32,23 @@ TEXT = {'design_ref': 'DESIGN.md section 4, C04',
          '`marks_correct_detached` — through the C05 traversal theorem and the C13 tree invariant); (3) a node change notifies exactly the sessions with a '
          'positive mark (other than the author unless it reflects to itself), at most one event per session, and the event is the filter transition rule — '
          'matched before/matches now: set, before and not now: removal, neither: nothing (`nodeChanged_exact`, `notify_exact`, `notify_exact_reach`, '
-         '`invariant_primitives`); (4) per node, applying that event to a correct mirror entry gives the correct entry again and touches no other path '
-         "(`step_mirror_partial`).  Tie: the reflector model reproduces the real server's deliveries and per-node subscriber tables exactly on every generated "
+         "`invariant_primitives`); (4) the delivery twin: what `nodeChangedAux`/`pushAll` append to a session's inbox is exactly what the abstract pipe of (1) "
+         "sends (`twin_text`, `delivery_twin`), so a client's replayed mirror equals the event-by-event fold; (5) steady-state convergence: for every attached "
+         'session with subscriptions enabled, every history made of SETDATA by anybody on any path (nodes walked, created or overwritten; also several '
+         'payloads in one command), REMOVEDATA with wildcards and nested subtrees, pushes, and departures of OTHER sessions, takes a correct mirror to a '
+         "correct mirror — `MirrorOK sv s m → MirrorOK sv' s' (applyMsgs m sent)` with `sent` exactly what was delivered (`step_mirror_set`, "
+         "`step_mirror_setm`, `step_mirror_rm`, `step_mirror_detach_other`, `converges_steady`); node names never contain '/' in any reachable state, so paths "
+         'are unambiguous (`names_unambiguous`); the engine-level corollaries hold for every op stream whose SUBSCRIBE lines are GoodPaths (`reach_engine`, '
+         "`marks_correct_engine`).  Tie: the reflector model reproduces the real server's deliveries and per-node subscriber tables exactly on every generated "
          "history (incl. several payloads in one SETDATA, re-filtering next to overlapping subscriptions, BATCH); the direct oracle compares each client's "
          'replayed mirror with the brute-force matching set (PathMatcher::MatchesPath + QueryFilter::Matches over the in-process tree) at every quiescent '
          'point.',
- 'note': 'Partial: the composition of (1)-(4) over whole histories (`converges`: the replayed mirror equals the matching set after every history) is not '
-         'proved — missing are the structured twin of the text inbox that ties `nodeChangedAux` to the abstract pipe of (1), the per-handler event lists '
-         '(snapshot on subscribe, client drop rule on unsubscribe, recursive removal, detach of another session) and the induction over histories; that part '
-         'is decided by correspondence + the mirror oracle.  Hypothesis of (2),(3): every SUBSCRIBE path is a GoodPath (no empty clause — F11 is reproduced on '
-         "the model as the counter-example — and the two pattern-layer laws of C15).  Oracle premises: other sessions' nodes only; clients that used quiet "
-         'flags / disabled subscriptions / explicit GETDATA are exempt by definition of those features.  Open finding F10 (two spellings of one subscription '
-         'path) is kept out of the random stream and runs from corpus/C04/srv-known-F10.ops.  The order in which the subscribers of one node are notified '
-         'comes from a content-addressed table cache and is not modelled: max-items is only used in single-subscriber cases.'}
+ 'note': "Partial: `converges` from the EMPTY mirror is not proved — the steps that establish or re-shape a subscriber's own view (the snapshot sent on "
+         "SUBSCRIBE, re-filtering, the client's drop rule on unsubscribe), the arrival of another session, ordered inserts and other sessions' parameter "
+         'commands are not yet in the proved step relation `Steady`; they are decided by correspondence + the mirror oracle.  Hypotheses: every SUBSCRIBE path '
+         'is a GoodPath (no empty clause; the two pattern-layer laws of C15); SETDATA paths within MUSCLE_MAX_NODE_DEPTH (`SetOK`; the model has no depth '
+         "check, the code refuses deeper paths); `MirrorOK` speaks about the other sessions' nodes (sessions with indexing or reflect-to-self also receive "
+         'their own).  Oracle premises: clients that used quiet flags / disabled subscriptions / explicit GETDATA are exempt by definition of those features.  '
+         'Open finding F10 (two spellings of one subscription path) is kept out of the random stream and runs from corpus/C04/srv-known-F10.ops.  The order in '
+         'which the subscribers of one node are notified comes from a content-addressed table cache and is not modelled: max-items is only used in '
+         'single-subscriber cases.'}
